@@ -73,6 +73,10 @@ def rg_part(chk, tier, recs):
             seen.add(b)
             inputs.append(b)
     filler = b"".join(b"x%06d filler filler filler filler\n" % i for i in range(1900))     # ~ 66 KB, no match, no NUL
+    exact = b"m\n" * 3 + b"".join(b"x%06d filler filler filler filler\n" % i for i in range(1724))
+    exact += b"y" * (65536 - len(exact) - 1) + b"\n"          # exactly 64 KiB of complete lines
+    assert len(exact) == 65536
+    inputs += [exact + b"\x00\nm\n", exact + b"\x00m\n", exact[:-2] + b"\n\x00\nm\n"]
     inputs += [filler + b"m\nm\x00\nm\n", b"m\n" + filler + b"\x00\nm\n", filler + b"x\x00m\n",
                b"m\nm\nm\n" + filler + b"a\x00b\nm\n", b"m\n" * 3 + filler + filler + b"m\x00\n", filler + b"m\n"]
     if tier == "quick":
@@ -87,8 +91,10 @@ def rg_part(chk, tier, recs):
             for naming in ("implicit", "explicit", "mixed"):
                 for mode, fl in (("default", []), ("binary", ["--binary"]), ("text", ["--text"])):
                     for strat in ("--mmap", "--no-mmap"):
-                        for ctx in ([], ["-C1"]):
+                        for ctx in ([], ["-C1"], ["-c"], ["-l"]):
                             if ctx and mode == "text":
+                                continue
+                            if ctx in (["-c"], ["-l"]) and (naming == "mixed" or k % 3):
                                 continue
                             args = ["--no-config", "--color", "never", "-j1", "-n", "-I", "--no-heading", strat] + fl + ctx + ["-e", "m"]
                             if naming == "explicit":
@@ -100,15 +106,29 @@ def rg_part(chk, tier, recs):
                             else:
                                 args += [sc.path(d)]
                             jobs.append({"args": args})
-                            meta.append((k, "implicit" if naming == "mixed" else naming, mode, strat + ("+mixed" if naming == "mixed" else "") + ("+ctx" if ctx else "")))
+                            meta.append((k, "implicit" if naming == "mixed" else naming, mode, strat + ("+mixed" if naming == "mixed" else "") + ("+" + ctx[0] if ctx else "")))
         outs = rgrun.run_many(jobs)
         chk.evaluations += len(jobs)
         runs = []
         for rid, ((k, naming, mode, strat), (rc, so, se)) in enumerate(zip(meta, outs), 1):
             b = inputs[k]
             body = b[:-1].split(b"\n") if b.endswith(b"\n") else b.split(b"\n")
+            summary = "count" if strat.endswith("+-c") else "list" if strat.endswith("+-l") else "none"
+            if summary == "none":
+                toks = tokens(so, body)
+            else:
+                toks = []
+                for raw in so.split(b"\n"):
+                    if raw == b"":
+                        continue
+                    if summary == "count" and raw.isdigit():
+                        toks.append({"k": "count", "i": int(raw)})
+                    elif summary == "list" and raw.endswith(b"/f"):
+                        toks.append({"k": "listed", "i": 0})
+                    else:
+                        toks.append({"k": "other", "i": 0})
             runs.append({"id": rid, "lines": [{"m": b"m" in l, "nul": b"\x00" in l} for l in body], "naming": naming, "mode": mode,
-                         "out": tokens(so, body), "nulout": b"\x00" in so, "rc": rc})
+                         "out": toks, "nulout": b"\x00" in so, "rc": rc, "summary": summary})
         os.makedirs(os.path.join(vlib.WORK, "c14"), exist_ok=True)
         path = os.path.join(vlib.WORK, "c14", "runs_%d.ndjson" % os.getpid())
         with open(path, "w") as f:
